@@ -20,7 +20,7 @@ for pid in ALL:
         "evidence_file": "/verif/evidence/%s.json" % pid,
         "replay_cmd_template": "./check %s --replay {path}" % pid,
         "engine": "coq-proof+correspondence",
-        "level_claimed": {"category": "proof", "text": cfg["level_text"], "design_ref": "DESIGN.md section 5, %s" % pid},
+        "level_claimed": {"category": "proof", "text": cfg["level_text"], "design_ref": "DESIGN.md section 5 (%s) and section 10.2 (as built)" % pid},
         "level_note": cfg["level_note"],
         "technique": cfg.get("technique", "machine-checked proof in Coq 8.16.1 of theorems about a hand-written executable Gallina model, tied to the source by regenerated facts and a differential correspondence run (vm_compute)"),
     })
